@@ -2,8 +2,20 @@
   Line-protocol driver for the model (see DESIGN.md §4.1a).  Reads a history, one
   operation per line, from stdin; prints the events of every step and, on `dump`, the
   canonical contents of all tables.  Imports only the model (no Mathlib).
+
+  Two forms of a received message:
+    recv  <c> <t> <id> <classified command …>         the harness classified the JSON object (old form)
+    recvj <c> <t> <pick> <draws|-> <fresh|-> <khex>=<tok> …
+          the JSON object itself, one `<hex of the key>=<token>` per pair in the order of the text
+          (`~` null, `h<hex>` string, `i<int>` integer, `t` / `f` booleans, `o` anything else);
+          `Wormhole.decodeCmd` / `decodeId` (Wormhole/Decode.lean) classify it.  `client_version` comes
+          as `cv=<tok of [0]>,<tok of [1]>` (the harness indexed it) or `cv=!<ExceptionClass>` when
+          Python cannot index it.  Prints `out-of-domain` when the decoder refuses the object.
+  Two forms of the configuration line: `cfg … <welcome-json-hex> <rebooted>` (welcome text computed by
+  the harness) and `cfgw <allow> <usage> <blur|-> <motd> <advertise> <error> <rebooted>` (computed by
+  `Wormhole.mkCfg` from the three options; `-` or `~` = option not given).
 -/
-import Wormhole.Ws
+import Wormhole.Decode
 
 open Wormhole
 
@@ -169,6 +181,85 @@ def parseCfg : List String → Option (Cfg × Int)
     pure ({ allowList := al = "1", usage := us = "1", blur := blur, welcome := w.getD "{}" }, rb)
   | _ => none
 
+def parseCfgw : List String → Option (Cfg × Int)
+  | [al, us, bl, motd, adv, err, rb] => do
+    let blur ← if bl = "-" then some none else bl.toNat?.map some
+    let motd ← parseTok motd >>= tokOptStr
+    let adv ← parseTok adv >>= tokOptStr
+    let err ← parseTok err >>= tokOptStr
+    let rb ← rb.toInt?
+    pure (mkCfg (al = "1") (us = "1") blur motd adv err, rb)
+  | _ => none
+
+/-- a JSON value token of the `recvj` form -/
+def parseJTok (t : String) : Option JVal :=
+  if t = "~" then some .null
+  else if t = "t" then some (.bool true)
+  else if t = "f" then some (.bool false)
+  else if t = "o" then some .other
+  else match t.toList with
+  | 'h' :: rest => (stringOfHex (String.ofList rest)).map .str
+  | 'i' :: rest => (String.ofList rest).toInt?.map .num
+  | _ => none
+
+/-- the pairs of a `recvj` line -> the object, and the exception class of an un-indexable
+    `client_version` (which is then left out of the object) -/
+def parsePairs : List String → Option (JObj × Option String)
+  | [] => some ([], none)
+  | p :: rest => do
+    let (o, bad) ← parsePairs rest
+    match p.splitOn "=" with
+    | ["cv", v] =>
+      if v.startsWith "!" then pure (o, some (v.drop 1).toString)
+      else match v.splitOn "," with
+        | [a, b] => do
+          let a ← parseJTok a
+          let b ← parseJTok b
+          pure (("client_version", .pair a b) :: o, bad)
+        | _ => none
+    | [k, v] => do
+      let k ← stringOfHex k
+      let v ← parseJTok v
+      pure ((k, v) :: o, bad)
+    | _ => none
+
+structure RecvJ where
+  c : Nat
+  t : Int
+  obj : JObj
+  badCv : Option String
+  pick : Nat
+  draws : List Nat
+  fresh : String
+
+def parseRecvJ : List String → Option RecvJ
+  | c :: t :: pick :: draws :: fresh :: pairs => do
+    let c ← c.toNat?
+    let t ← t.toInt?
+    let pick ← pick.toNat?
+    let draws ← parseDraws draws
+    let fresh ← parseTok fresh >>= tokOptStr
+    let (o, bad) ← parsePairs pairs
+    pure ⟨c, t, o, bad, pick, draws, fresh.getD ""⟩
+  | _ => none
+
+/-- one operation (under the pending `crash` prefix, if any) -/
+def runOp (d : DState) (op : Op) : DState × List String :=
+  let op := match d.crash with | some k => Op.crashIn k op | none => op
+  let s1 := d.sys.step op
+  ({ sys := s1, crash := none }, s1.out.map showEvent ++ ["E"])
+
+/-- a `bind` whose `client_version` Python cannot index (outside the model's domain, see proto.py):
+    the connection is bound, the exception `cls` escapes before anything is written.  `op` is the
+    bind without `client_version`. -/
+def runBadCv (d : DState) (op : Op) (cn : Nat) (cls : String) : DState × List String :=
+  let s0 := d.sys
+  let s1 := ({ s0 with cfg := { s0.cfg with usage := false } } : Sys).step op
+  let bound := s1.out.all (fun e => match e with | .frame _ (.error _) _ => false | _ => true)
+  let s2 := { s1 with cfg := s0.cfg }
+  let extra := if bound then [s!"X {cn} {cls}"] else []
+  ({ sys := s2, crash := none }, s1.out.map showEvent ++ extra ++ ["E"])
+
 def processLine (d : DState) (line : String) : DState × List String :=
   let toks := (line.trimAscii.toString.splitOn " ").filter (· ≠ "")
   match toks with
@@ -177,6 +268,21 @@ def processLine (d : DState) (line : String) : DState × List String :=
     match parseCfg rest with
     | some (cfg, rb) => ({ d with sys := { d.sys with cfg := cfg, rebooted := rb } }, ["E"])
     | none => (d, ["bad-op", "E"])
+  | "cfgw" :: rest =>
+    match parseCfgw rest with
+    | some (cfg, rb) => ({ d with sys := { d.sys with cfg := cfg, rebooted := rb } }, ["E"])
+    | none => (d, ["bad-op", "E"])
+  | "recvj" :: rest =>
+    match parseRecvJ rest with
+    | none => (d, ["bad-op", "E"])
+    | some r =>
+      match decodeCmd r.obj r.pick r.draws r.fresh with
+      | none => (d, ["out-of-domain", "E"])
+      | some cmd =>
+        let op := Op.recv r.c r.t (decodeId r.obj) cmd
+        match r.badCv, cmd with
+        | some cls, .bind _ _ _ _ => runBadCv d op r.c cls
+        | _, _ => runOp d op
   | ["crash", k] =>
     match k.toNat? with
     | some k => ({ d with crash := some k }, [])
@@ -187,28 +293,16 @@ def processLine (d : DState) (line : String) : DState × List String :=
     -- the connection is bound, the exception escapes before anything is written
     if i.startsWith "!" then
       match parseOp ("recv" :: c :: t :: id :: "bind" :: a :: sd :: "-" :: rest), c.toNat? with
-      | some op, some cn =>
-        let s0 := d.sys
-        let s1 := ({ s0 with cfg := { s0.cfg with usage := false } } : Sys).step op
-        let bound := s1.out.all (fun e => match e with | .frame _ (.error _) _ => false | _ => true)
-        let s2 := { s1 with cfg := s0.cfg }
-        let extra := if bound then [s!"X {cn} {(i.drop 1).toString}"] else []
-        ({ sys := s2, crash := none }, s1.out.map showEvent ++ extra ++ ["E"])
+      | some op, some cn => runBadCv d op cn (i.drop 1).toString
       | _, _ => (d, ["bad-op", "E"])
     else
       match parseOp toks with
       | none => (d, ["bad-op", "E"])
-      | some op =>
-        let op := match d.crash with | some k => Op.crashIn k op | none => op
-        let s1 := d.sys.step op
-        ({ sys := s1, crash := none }, s1.out.map showEvent ++ ["E"])
+      | some op => runOp d op
   | toks =>
     match parseOp toks with
     | none => (d, ["bad-op", "E"])
-    | some op =>
-      let op := match d.crash with | some k => Op.crashIn k op | none => op
-      let s1 := d.sys.step op
-      ({ sys := s1, crash := none }, s1.out.map showEvent ++ ["E"])
+    | some op => runOp d op
 
 partial def loop (h : IO.FS.Stream) (out : IO.FS.Stream) (d : DState) : IO Unit := do
   let line ← h.getLine
